@@ -117,6 +117,13 @@ func genAE(rng *Rng, seqs [][]uint64, now int64) aeCase {
 			pre.ST = e.Term
 		}
 	}
+	if rng.Chance(6) && len(flog.Ents) > 0 {
+		// a node restarted from the directory as it is between the two storage writes of InstallSnapshot:
+		// the received snapshot is visible, the log not yet discarded and still holding, at the snapshot's
+		// index, an uncommitted entry of an older term (restore() takes boundary and term from the snapshot)
+		e := flog.Ents[rng.Intn(len(flog.Ents))]
+		pre.SI, pre.ST = e.Index, e.Term+1
+	}
 	li := flog.LastIndex()
 	lo := pre.SI
 	if li >= lo {
